@@ -378,9 +378,19 @@ def install():
     mm.print = lambda *a, **k: None
 
     class QuietLogger(mm.RTMALogger):
-        # same logger, but the console (rich) handler is a null handler: a check's stdout must
-        # carry only its own lines
+        # same logger, but a check's stdout must carry only its own lines: the console handler is a null handler, or
+        # (CONSOLE["mode"] == "sink") the repository's own rich console handler rendering into a sink, so that the
+        # formatting of client-controlled text (module names) in log lines is exercised as in production
         def init_console_handler(self):
+            if CONSOLE["mode"] == "sink":
+                import io
+
+                from rich.console import Console
+
+                h = super().init_console_handler()
+                h.console = Console(file=io.StringIO(), force_terminal=False, width=160)
+                CONSOLE["handlers"] = CONSOLE.get("handlers", 0) + 1
+                return h
             h = logging.NullHandler()
             h.name = "Console Handler"
             return h
@@ -459,11 +469,15 @@ def pin_to_current_cpu():
         _pinned = True
 
 
+CONSOLE = {"mode": "null"}
+
+
 class Sim:
     """One manager instance running on a fresh Net."""
 
-    def __init__(self, timecode=False, send_msg_timing=True, log_level=logging.ERROR):
+    def __init__(self, timecode=False, send_msg_timing=True, log_level=logging.ERROR, console="null"):
         install()
+        CONSOLE["mode"] = console
         import pyrtma.manager as mm
 
         FakeSocket._ids = 0  # socket identities (and thereby set iteration orders) are a function of the history
